@@ -130,7 +130,8 @@ def run(ctx):
                 x0 = e0["expr"]
                 if x0.get("k") == "decl":
                     for v0 in x0.get("vars", []):
-                        if v0.get("init") is not None:
+                        if v0.get("init") is not None and re.fullmatch(r"(const )?(auto|decltype\(auto\))( ?&&?)?", (v0.get("type") or "").strip()):
+                            # (only a declaration that keeps the result's own type: `lang::string_ref text = t()` converts it)
                             ldefs.setdefault(v0["name"], []).append(fmt(ir.unwrap(v0["init"])))
             ncalls_t = sum(1 for _, _, e0 in f.roots() for n0 in walk(e0["expr"], into_sc=False) if isinstance(n0, dict) and n0.get("k") in ("call", "ucall") and fmt(n0) in ("%s()" % tname, "?()"))
             resolved = []
@@ -142,6 +143,19 @@ def run(ctx):
                 else:
                     resolved.append(x1)
             ins = resolved
+        # the buffer only ever grows while a statement is composed: repositioning or replacing its content (seekp, str(x), swap, a changed
+        # state or format) - also inside a catch handler - makes the record differ from the concatenation of what was streamed
+        for _, _, e0 in f.all_elems():
+            x0 = e0.get("expr")
+            for n0 in (walk(x0) if isinstance(x0, dict) else []):
+                if isinstance(n0, dict) and n0.get("k") == "call" and n0.get("this") is not None and fmt(ir.unwrap(n0["this"])) in bufnames:
+                    m0 = short(n0.get("name") or "")
+                    has_args = bool([a0 for a0 in n0.get("args", []) if not (isinstance(a0, dict) and a0.get("k") == "defarg")])
+                    if m0 in ("seekp", "swap", "setstate", "copyfmt", "imbue", "unsetf", "setf", "width", "precision", "fill") or (m0 in ("str", "rdbuf", "exceptions", "clear", "flags") and has_args):
+                        if m0 in ("width", "precision", "fill", "flags") and not has_args:
+                            continue
+                        ctx.bad("R05.7", f, "buffer-only-appended:%s:%s" % (tag, m0), "the overload calls %s on the statement's buffer (line %s): the put position / content / formatting state of what was streamed so far is changed - "
+                                "`seekp` does not shorten the text, later items overwrite it from there and str() still returns everything up to the old end" % (fmt(n0)[:60], n0.get("ln")), (f, n0.get("ln")))
         want = "?()" if tag.endswith("callable") else tname
         okins = len(ins) == 1 and (ins[0] == want or (tag.endswith("callable") and ins[0] in ("%s()" % tname, "?()")))
         ctx.check(okins, "R05.7", f, "inserts-operand-once:" + tag, "the overload inserts %s into the buffer instead of exactly one `%s`" % (ins, tname + ("()" if tag.endswith("callable") else "")), f)
